@@ -13,10 +13,16 @@ Definition xor_sum (l : list Z) : Z := fold_left Z.lxor l 0.
 Definition uart_frame (p : cpx) : list Z :=
   let buff := 255 :: zlen (wire_data p) :: wire_data p in buff ++ [xor_sum buff].
 
-(* writePacket: acquire the lock FIRST (held until the peer's clear-to-send 0xFF 0x00 is read);
-   more than 100 wire bytes: `raise 'Packet too large!'` (a TypeError) — with the lock left held *)
+(* writePacket (after fix F18c): more than 100 wire bytes are refused BEFORE the lock is taken; otherwise
+   acquire the lock (held until the peer's clear-to-send 0xFF 0x00 is read) and write the frame.
+   uart_write_old is the behaviour before the fix: lock first, then `raise 'Packet too large!'`
+   (a TypeError) with the lock left held. *)
 Inductive wres := WOk (bytes : list Z) | WBlocked | WTooLarge.
 Definition uart_write (lock : bool) (p : cpx) : wres * bool :=
+  if 100 <? zlen (wire_data p) then (WTooLarge, lock)
+  else if lock then (WBlocked, true)
+  else (WOk (uart_frame p), true).
+Definition uart_write_old (lock : bool) (p : cpx) : wres * bool :=
   if lock then (WBlocked, true)
   else if 100 <? zlen (wire_data p) then (WTooLarge, true)
   else (WOk (uart_frame p), true).
@@ -117,9 +123,27 @@ Proof.
   - apply uart_read_frame; [assumption|lia].
 Qed.
 
-Lemma uart_write_too_large : forall p, 98 < zlen (c_data p) -> uart_write false p = (WTooLarge, true).
+(* an oversize packet is refused and leaves the flow-control lock as it was: the link stays usable *)
+Lemma uart_write_too_large : forall p lock, 98 < zlen (c_data p) -> uart_write lock p = (WTooLarge, lock).
 Proof.
-  intros p H. unfold uart_write. rewrite zlen_wire_data. destruct (100 <? zlen (c_data p) + 2) eqn:E; [reflexivity|lia].
+  intros p lock H. unfold uart_write. rewrite zlen_wire_data. destruct (100 <? zlen (c_data p) + 2) eqn:E; [reflexivity|lia].
+Qed.
+
+Lemma uart_oversize_then_send : forall big p rest lock, 98 < zlen (c_data big) -> wf_cpx p -> zlen (c_data p) <= 98 ->
+  snd (uart_write false big) = false /\
+  exists bytes, uart_write (snd (uart_write false big)) p = (WOk bytes, true) /\
+    uart_read (bytes ++ rest) lock = (UPacket (Ok p) true, rest, lock).
+Proof.
+  intros big p rest lock Hb Hp Hm. rewrite (uart_write_too_large big false Hb). cbn [snd].
+  split; [reflexivity|]. now apply uart_write_read.
+Qed.
+
+(* before the fix the same sequence wedged the link: the second write waits for a clear-to-send nobody owes *)
+Lemma uart_old_oversize_wedges : forall big p, 98 < zlen (c_data big) ->
+  uart_write_old (snd (uart_write_old false big)) p = (WBlocked, true).
+Proof.
+  intros big p Hb. unfold uart_write_old at 2. rewrite zlen_wire_data.
+  destruct (100 <? zlen (c_data big) + 2) eqn:E; [reflexivity|lia].
 Qed.
 
 (* line noise before a frame is skipped; a clear-to-send marker releases the held lock and is skipped *)
